@@ -355,3 +355,70 @@ MUTANTS = {
         mut("await-in-tool", "tool yields to the scheduler", [(SERVER, "        let transactions = self.parse_input(&req.transactions)?;\n        let dsl = cgt_core::dsl::transactions_to_dsl(&transactions);", "        tokio::task::yield_now().await;\n        let transactions = self.parse_input(&req.transactions)?;\n        let dsl = cgt_core::dsl::transactions_to_dsl(&transactions);")], ["R3:"]),
     ],
 }
+
+# ----------------------------------------------------------------------------- refactored bases
+# The stored behaviour-preserving refactorings (seeded/neutral-r*) serve twice in the thorough tier: applied alone they
+# must stay silent (a generalised rule must not alarm on them), and with one break on top they must be detected (the
+# generalised rule must not have become vacuous on the new spelling).
+
+def on(base, m):
+    m = dict(m)
+    m["base"] = base
+    return m
+
+
+def refactor(base, props):
+    return {p: on(base, mut(base, f"behaviour-preserving refactoring {base} alone", [], neutral=True)) for p in props}
+
+
+_NEUTRAL_BASES = {
+    "neutral-r2": ["C01", "C02", "C03", "C05", "C10", "C12"],
+    "neutral-r3": ["C03", "C05", "C06"],
+    "neutral-r4": ["C04", "C06", "C07", "C08", "C16", "C17"],
+    "neutral-r5": ["C18", "C19"],
+    "neutral-r6": ["C05", "C06", "C07", "C08", "C15", "C20"],
+    "neutral-r7": ["C13", "C14", "C15"],
+    "neutral-r8": ["C08", "C17"],
+    "neutral-r1": ["C01", "C02", "C06", "C11", "C12"],
+}
+for _b, _ps in _NEUTRAL_BASES.items():
+    for _p, _m in refactor(_b, _ps).items():
+        MUTANTS.setdefault(_p, []).append(_m)
+
+_CROSS = {
+    "C10": [on("neutral-r2", mut("r2+split-divides", "pure ratio accumulator divides on SPLIT",
+                                 [(BNB, "Operation::Split { ratio } if *ratio != Decimal::ZERO => ratio_so_far * *ratio,",
+                                   "Operation::Split { ratio } if *ratio != Decimal::ZERO => ratio_so_far / *ratio,")], ["R2:"]))],
+    "C12": [on("neutral-r2", mut("r2+scan-any-date", "loop-form same-date scan loses its date test",
+                                 [(BNB, "        if tx.date != date || tx.ticker != ticker {", "        if tx.ticker != ticker {")], ["R1:"]))],
+    "C02": [on("neutral-r2", mut("r2+claim-sell-units", "future claim recorded in sell-time units",
+                                 [(BNB, "*future_consumption.entry(idx).or_insert(Decimal::ZERO) += matched_qty_at_buy_time;",
+                                   "*future_consumption.entry(idx).or_insert(Decimal::ZERO) += matched_qty_at_sell_time;")], ["R3:", "R6:"]))],
+    "C03": [on("neutral-r3", mut("r3+cost-weight", "same-day numerator weighted by the lot's full amount",
+                                 [(LED, "                holdings.total_cost += available * lot.adjusted_unit_cost();",
+                                   "                holdings.total_cost += lot.amount * lot.adjusted_unit_cost();")], ["R4:"]))],
+    "C07": [on("neutral-r4", mut("r4+range-pattern-2200", "range pattern admits years up to 2200",
+                                 [(MODELS, "            MIN_TAX_YEAR..=MAX_TAX_YEAR => Ok(Self(start_year)),", "            MIN_TAX_YEAR..=2200 => Ok(Self(start_year)),")], ["R2:"]))],
+    "C08": [on("neutral-r4", mut("r4+convert-wrong-field", "closure-converted fees taken from price",
+                                 [(MODELS, "                price: convert(price)?,\n                fees: convert(fees)?,", "                price: convert(price)?,\n                fees: convert(price)?,")], ["R1:"])),
+            on("neutral-r6", mut("r6+loader-arms-swapped", "folder given → bundled rates only",
+                                 [(MAIN, "        None => Ok(load_default_cache()?),", "        None => Ok(load_cache_with_overrides(Vec::new())?),")], ["R8:"])),
+            on("neutral-r8", mut("r8+period-year-only", "period helper compares the year only",
+                                 [(MPARSER, "    if found_year == expected_year && found_month == expected_month {", "    if found_year == expected_year {")], ["R7:"]))],
+    "C19": [on("neutral-r5", mut("r5+find_map-8-days", "find_map look-back over 1..=8",
+                                 [(AWARDS, "(1..=7).find_map(|days_back| {", "(1..=8).find_map(|days_back| {")], ["R1:"])),
+            on("neutral-r5", mut("r5+find_map-farthest", "look-back walks the range backwards",
+                                 [(AWARDS, "(1..=7).find_map(|days_back| {", "(1..=7).rev().find_map(|days_back| {")], ["R1:"]))],
+    "C18": [on("neutral-r5", mut("r5+cancel-ignores-price", "cancellation helper no longer compares the price",
+                                 [(SCHWAB, "            && *price == self.price\n", "\n")], ["R2:"]))],
+    "C15": [on("neutral-r6", mut("r6+pdf-guard-negated", "overwrite guard tests the explicit path instead of the default",
+                                 [(MAIN, "if is_default && output_path.exists()", "if !is_default && output_path.exists()")], ["R4:"])),
+            on("neutral-r7", mut("r7+zero-quantity-accepted", "check_quantity loses its zero test",
+                                 [(VALID, "    if qty == Decimal::ZERO {", "    if false {")], ["R5:"]))],
+    "C14": [on("neutral-r7", mut("r7+clause-guard-sign", "optional clause omitted for negative instead of zero amounts",
+                                 [(DSL, "    if value.amount.is_zero() {", "    if value.amount.is_sign_negative() {")], ["R1:"]))],
+    "C17": [on("neutral-r8", mut("r8+sign-swapped", "sign string swapped",
+                                 [(FORMAT, 'let sign = if rounded.is_sign_negative() { "-" } else { "" };', 'let sign = if rounded.is_sign_negative() { "" } else { "-" };')], ["R4:"]))],
+}
+for _p, _ms in _CROSS.items():
+    MUTANTS.setdefault(_p, []).extend(_ms)
